@@ -1,3 +1,4 @@
+CONSTANT MaxBase = 150
 INIT TInit
 NEXT TStep
 CHECK_DEADLOCK FALSE
